@@ -148,7 +148,11 @@ func SaslPrepName(s string) string {
 	return s
 }
 
-func (cfg *SaslConfig) scramPassword(user string) (string, bool) {
+// scramPassword looks a SCRAM user up. The name arrives as the "saslname" of the client-first message: ',' and '=' are
+// escaped as =2C and =3D (RFC 5802 5.1; xdg-go/scram's server hands the name over undecoded, Kafka's ScramSaslServer
+// decodes it with ScramFormatter.username), and the client has applied SASLprep to it.
+func (cfg *SaslConfig) scramPassword(saslname string) (string, bool) {
+	user := strings.Replace(strings.Replace(saslname, "=2C", ",", -1), "=3D", "=", -1)
 	if pw, ok := cfg.Users[user]; ok {
 		return pw, true
 	}
